@@ -34,6 +34,31 @@ type scenario struct {
 	Fitness  int    `json:"fitness"`  // family
 	Epochs   int    `json:"epochs"`
 	Preset   int    `json:"preset"`
+	// optional overrides of single options of the preset (exploration / replay): CompatThreshold, BabiesStolen, ...
+	Override map[string]float64 `json:"override,omitempty"`
+}
+
+func (sc scenario) options() *neat.Options {
+	o := preset(sc.Preset, sc.PopSize)
+	for k, v := range sc.Override {
+		switch k {
+		case "thr":
+			o.CompatThreshold = v
+		case "stolen":
+			o.BabiesStolen = int(v)
+		case "addnode":
+			o.MutateAddNodeProb = v
+		case "addlink":
+			o.MutateAddLinkProb = v
+		case "wpower":
+			o.WeightMutPower = v
+		case "dropoff":
+			o.DropOffAge = int(v)
+		case "survival":
+			o.SurvivalThresh = v
+		}
+	}
+	return o
 }
 
 var fitnessNames = []string{"zero", "constant", "linear", "heavy-tailed", "dominant", "stagnating", "distinct-random", "structure"}
@@ -47,7 +72,7 @@ func preset(k, popSize int) *neat.Options {
 	o.RecurOnlyProb = 0.2
 	o.NewLinkTries = 20
 	o.InterspeciesMateRate = 0.05
-	switch k % 6 {
+	switch k % 7 {
 	case 0: // many species, no stealing
 		o.CompatThreshold, o.SurvivalThresh, o.DropOffAge, o.BabiesStolen = 0.6, 0.2, 15, 0
 	case 1: // stolen babies
@@ -59,6 +84,9 @@ func preset(k, popSize int) *neat.Options {
 	case 4: // stolen babies + stagnation, linear compatibility
 		o.CompatThreshold, o.SurvivalThresh, o.DropOffAge, o.BabiesStolen = 0.8, 0.1, 2, popSize/2
 		o.GenCompatMethod = neat.GenomeCompatibilityMethodLinear
+	case 6: // several mid-sized species that live long enough to be robbed by more than one thief's worth of babies
+		o.CompatThreshold, o.SurvivalThresh, o.DropOffAge, o.BabiesStolen = 3.0, 0.3, 20, popSize/6
+		o.MutateAddNodeProb, o.MutateAddLinkProb = 0.03, 0.05
 	case 5: // mating heavy
 		o.CompatThreshold, o.SurvivalThresh, o.DropOffAge, o.BabiesStolen = 2.0, 0.4, 4, 1
 		o.MutateOnlyProb, o.MateOnlyProb, o.InterspeciesMateRate = 0.05, 0.5, 0.3
@@ -236,7 +264,7 @@ func construct(sc scenario, opts *neat.Options, rec *epochRec) (*genetics.Popula
 
 func runScenario(sc scenario, rec *epochRec) {
 	rand.Seed(sc.Seed)
-	opts := preset(sc.Preset, sc.PopSize)
+	opts := sc.options()
 	if sc.Executor == "par" {
 		opts.EpochExecutorType = neat.EpochExecutorTypeParallel
 	}
